@@ -69,6 +69,26 @@ func zzText(i int, pfx string) string {
 			l2 += long
 		}
 		return "S1F1 W H->E <A \"" + l2 + "\">. S1F" + d + " ."
+	case 17: // wide: a list of 110 numbers and a list of 60 strings next to them
+		t := "S6F11 W H<-E big\n<L"
+		for i := 0; i < 110; i++ {
+			t += " <U1 " + d + ">"
+		}
+		t += " <L"
+		for i := 0; i < 60; i++ {
+			t += " <A \"x\">"
+		}
+		return t + " <L x ...>>>\n."
+	case 18: // deep: 130 nested lists
+		t := "S6F13 W H<-E\n"
+		for i := 0; i < 130; i++ {
+			t += "<L "
+		}
+		t += "<U1 " + d + ">"
+		for i := 0; i < 130; i++ {
+			t += ">"
+		}
+		return t + "\n."
 	case 5: // two messages in one text, second without direction on the same line as its terminator
 		return "S1F1\n<A \"" + d + "\">\n.\nS1F2 ."
 	}
